@@ -300,7 +300,10 @@ def _script(ctx, case, with_history):
     s.raw("snap a oldewscg")
     s.raw("cur a 1")
     s.raw("set a SelectedOutputStringOn 1")
-    probes = list(PROBES) + (PROBES_PHREEQC if case["target"] in ("phreeqc.dat", "wateq4f.dat", "Amm.dat") else [])
+    # the last probe defines selected output for the user numbers the history may have switched on or off (2 and 5) without touching their switches:
+    # what their strings and files receive is part of the fresh-state behaviour
+    probes = list(PROBES) + (PROBES_PHREEQC if case["target"] in ("phreeqc.dat", "wateq4f.dat", "Amm.dat") else []) + [
+        ("other-user-numbers", "SELECTED_OUTPUT 2\n -reset false\n -totals Na\nSELECTED_OUTPUT 5\n -reset false\n -pH true\nSOLUTION 1\n Na 1\n Cl 1\nEND\n")]
     for name, text in probes:
         s.raw("tag probe:" + name)
         s.run("a", text)
